@@ -1,24 +1,24 @@
 (** Property C16 -- A serialised grammar pool restores to a behaviourally identical pool.
     Only the property theorems: each is closed by [exact] of a lemma (Proofs16*.v, Gen/GenSerializeObl.v) and followed
     by [Print Assumptions].  Models: Model16.v; per-class action lists: Gen/GenSerialize.v (regenerated from /repo). *)
-From XV Require Import Base.XDefs C16.Model16 C16.Spec16 C16.Proofs16a C16.Proofs16b C16.Proofs16c
+From XV Require Import Base.XDefs C16.Model16 C16.Spec16 C16.Proofs16a C16.Proofs16b C16.Proofs16c C16.ModelObj16 C16.Proofs16d C16.Containers16
   Gen.GenSerialize Gen.GenSerializeObl.
 Local Open Scope nat_scope.
 
 (** XSerializeEngine is a faithful typed byte channel (repaired read(), see F26): for every buffer size >= 8 and
-    every sequence of typed primitives (1/2/4/8 bytes aligned, writeSize/Int64/UInt64 unaligned), raw blocks of
-    any length (spanning any number of buffers) and XMLCh strings (null or not), the loading engine run over the
-    bytes produced by the storing engine returns exactly the items written - alignment padding and buffer
-    switches are decided identically on both sides - and what is left of the stream is the zero padding of the
-    last block only (at most one buffer).
-    PARTIAL with respect to the design: writeString with buffer length (OStrB: KVStringPair, QName, XMLDateTime)
-    and XMLByte strings (OStr8: class names of XProtoType) are modelled and covered by the correspondence, but not
-    by this theorem ([basic] excludes them). *)
-Theorem T16_engine_roundtrip_partial : forall bs, 8 <= bs -> forall ops, Forall op_ok ops -> Forall basic ops ->
+    every sequence of operations - primitives of 1/2/4/8 bytes at whatever alignment the preceding items leave
+    (bool, XMLByte, char, XMLCh, short, int, unsigned, float, long, unsigned long, double: the wire form of each is
+    its little-endian byte string), writeSize/Int64/UInt64 (unaligned), raw blocks of any length (every residue of
+    the buffer size, including the F26 class where the remainder is an exact multiple of it), XMLCh strings with
+    and without buffer length, XMLByte strings, null strings - the loading engine run over the bytes produced by
+    the storing engine returns exactly the items written (for strings: bufferLen, dataLen and the characters);
+    alignment padding and buffer switches are decided identically on both sides, and what is left of the stream is
+    the zero padding of the last block only (at most one buffer). *)
+Theorem T16_engine_roundtrip : forall bs, 8 <= bs -> forall ops, Forall op_ok ops ->
   exists stream r', w_all bs ops = Ok stream /\ r_all false bs (map rq_of ops) stream = Ok (ops, r') /\
                     R r' = zeros (length (R r')) /\ length (R r') <= bs.
 Proof. exact engine_roundtrip. Qed.
-Print Assumptions T16_engine_roundtrip_partial.
+Print Assumptions T16_engine_roundtrip.
 
 (** the code as found does NOT have the property (finding F26): with a 16-byte buffer, a byte, a 31-byte block and
     an int are read back as a byte, the block and a wrong int *)
@@ -36,6 +36,64 @@ Theorem T16_symmetric : forallb (class_obligation ser_classes) ser_parsed = true
 Proof. exact T16_sym_all. Qed.
 Print Assumptions T16_symmetric.
 
+(** object references (store pool / load pool).  For EVERY finite sequence of reference events - null pointers,
+    objects (address, dynamic class) and template containers, with arbitrary sharing, cycles included since a cycle
+    is just a later event naming an earlier address - the load side run on the tags the store side issued succeeds,
+    rebuilds a pool that mirrors the store pool entry by entry, and returns for each event the id the store side
+    assigned to its address; the ids travel through the byte channel of T16_engine_roundtrip as unsigned ints. *)
+Theorem T16_objgraph : forall evs ts sp', store_all [] evs = (ts, sp') ->
+  load_all [] (map rq_ev evs) ts = Ok (map (ref_of sp') evs, map ent sp').
+Proof. intros evs ts sp'. exact (objgraph_run evs [] ts sp'). Qed.
+Print Assumptions T16_objgraph.
+
+(** ... hence the loaded graph is isomorphic to the stored one: every non-null pointer is loaded as a non-null
+    reference, two references are equal after load iff they were equal before (shared sub-objects stay shared,
+    distinct objects stay distinct), and null stays null *)
+Theorem T16_objgraph_sharing : forall evs ts sp' e1 e2 a b, store_all [] evs = (ts, sp') -> In e1 evs -> In e2 evs ->
+  ev_addr e1 = Some a -> ev_addr e2 = Some b ->
+  (exists i, ref_of sp' e1 = Some i) /\ (ref_of sp' e1 = ref_of sp' e2 <-> a = b).
+Proof. exact sharing_iff. Qed.
+Print Assumptions T16_objgraph_sharing.
+
+Theorem T16_objgraph_null : forall sp' e evs ts, store_all [] evs = (ts, sp') -> In e evs ->
+  (ref_of sp' e = None <-> ev_addr e = None).
+Proof. exact null_iff. Qed.
+Print Assumptions T16_objgraph_null.
+
+(** the class record selects the stored dynamic class: the load-pool entry behind the reference of an object event
+    is an object of that event's class (each address being used with one class throughout the run) *)
+Theorem T16_objgraph_class : forall evs ts sp' a c, consistent evs -> store_all [] evs = (ts, sp') -> In (EObj a c) evs ->
+  exists id, ref_of sp' (EObj a c) = Some id /\ nth_error (map ent sp') (id - 1) = Some (LObj c).
+Proof. exact class_of_loaded. Qed.
+Print Assumptions T16_objgraph_class.
+
+(** store (load (store g)) = store g: presenting the loaded graph (addresses = load-pool ids) to a fresh storing
+    engine yields exactly the same tag sequence - ids are assigned deterministically by first occurrence.  (Bytes
+    of a real second serialisation can still differ where a container enumerates in address order; the check
+    compares lengths there.) *)
+Theorem T16_reserialize : forall evs ts sp', store_all [] evs = (ts, sp') -> fst (store_all [] (reload sp' evs)) = ts.
+Proof. exact reserialize. Qed.
+Print Assumptions T16_reserialize.
+
+(** the container helpers of XTemplateSerializer.cpp, body by body (28 storeObject/loadObject overload pairs today,
+    one lemma each in Gen/GenSerializeObl.v): both overloads transfer the same items - tag, hash modulus, count, and
+    per entry the same fields in the same order - and a key that is stored explicitly is read back into the very
+    argument position of the insertion call that corresponds to its position in the enumerator's key tuple *)
+Theorem T16_containers_symmetric : forallb container_ok ser_containers = true.
+Proof. exact T16_tmpl_all. Qed.
+Print Assumptions T16_containers_symmetric.
+
+(** every container kind stored by a serialize() body or by another container has such a pair *)
+Theorem T16_containers_covered : tmpl_covered ser_parsed ser_containers = true.
+Proof. exact T16_tmpl_covered. Qed.
+Print Assumptions T16_containers_covered.
+
+(** every loadObject re-inserts its entries under exactly the reviewed key expressions (Containers16.v): callee,
+    argument expressions in order, and the definitions of the key variables *)
+Theorem T16_container_keys : inserts_ok pinned_container_inserts ser_container_inserts = true.
+Proof. exact T16_tmpl_inserts. Qed.
+Print Assumptions T16_container_keys.
+
 (** deserializeGrammars compares the level stamp before anything else is read *)
 Theorem T16_level : forall bs level stream r0 stamp r1 stale qs, 8 <= bs ->
   r_init bs stream = Ok r0 -> r_prim bs 4 true r0 = Ok (stamp, r1) -> stamp <> level ->
@@ -46,16 +104,16 @@ Print Assumptions T16_level.
 (** a pool stored by a build of another level is refused by this build's loader (ser_level is regenerated from
     configure.ac), whatever the pool contains and however the stream is cut into buffers *)
 Theorem T16_level_foreign_pool : forall bs stamp locked body qs, 8 <= bs -> (stamp < 4294967296)%N -> stamp <> ser_level ->
-  Forall op_ok body -> Forall basic body ->
+  Forall op_ok body ->
   exists stream, pool_store bs stamp locked body = Ok stream /\ pool_load false bs ser_level qs stream = Err E_LevelMismatch.
 Proof. intros bs stamp locked body qs H. exact (level_mismatch_stored bs H ser_level stamp locked body qs). Qed.
 Print Assumptions T16_level_foreign_pool.
 
 (** non-vacuity *)
 Example T16_nonvacuous_ops :
-  Forall op_ok [OPrim K4 7; OStr (Some [0x41; 0x20AC]); OStr None; ORaw [1; 2; 3]; OPrim KS 5; OPrim K8 0xFFFFFFFFFFFFFFFF]%N /\
-  Forall basic [OPrim K4 7; OStr (Some [0x41; 0x20AC]); OStr None; ORaw [1; 2; 3]; OPrim KS 5; OPrim K8 0xFFFFFFFFFFFFFFFF]%N.
-Proof. split; repeat constructor; vm_compute; reflexivity. Qed.
+  Forall op_ok [OPrim K4 7; OStr (Some [0x41; 0x20AC]); OStr None; ORaw [1; 2; 3]; OPrim KS 5; OPrim K8 0xFFFFFFFFFFFFFFFF;
+                OStrB (Some (16, [0x41; 0xD800])); OStrB None; OStr8 (Some [0x51; 0x4E]); OPrim K2 0xFFFF; OPrim K1 1]%N.
+Proof. repeat constructor; vm_compute; reflexivity. Qed.
 Example T16_nonvacuous_straddle :   (* a string whose bytes span three 8-byte buffers, then an aligned int *)
   w_all 8 [OPrim K1 1; OStr (Some [0x41; 0x42; 0x43; 0x44; 0x45; 0x46; 0x47; 0x48; 0x49]); OPrim K4 9]%N =
   Ok [1;0;0;0;0;0;0;0; 9;0;0;0;0;0;0;0; 0x41;0;0x42;0;0x43;0;0x44;0; 0x45;0;0x46;0;0x47;0;0x48;0; 0x49;0;0;0;9;0;0;0]%N.
@@ -66,3 +124,22 @@ Example T16_nonvacuous_asymmetry_detected :   (* a field dropped from the load b
   class_ok [(1, true, [APrim W4; AStr false; AObj 2], [APrim W4; AObj 2])] (1, true, [APrim W4; AStr false; AObj 2], [APrim W4; AObj 2]) = false
   /\ compatible [APrim W4; APrim W1] [APrim W1; APrim W4] = false /\ compatible [APrim W4] [APrim W8] = false.
 Proof. vm_compute. repeat split; reflexivity. Qed.
+Example T16_nonvacuous_rekeyed_container :   (* the stored scope key not used as third insertion key; a changed key expression *)
+  container_ok (1, true, [ATag; ABrOpen; APrim WS; ALoopOpen; AKey W4 3; AObj 2; ALoopClose; ABrAlt; ABrClose],
+                         [ATag; ABrOpen; APrim WS; ALoopOpen; AKey W4 0; AObj 2; ALoopClose; ABrAlt; ABrClose]) = false /\
+  inserts_ok [(5, [[1; 2; 3]])]%N [(5, [[1; 2; 4]])]%N = false /\ inserts_ok [(5, [[1; 2; 3]])]%N [(5, [[1; 3; 2]])]%N = false.
+Proof. vm_compute. repeat split; reflexivity. Qed.
+Example T16_nonvacuous_objgraph :   (* shared object, second object of the same class, null, shared container, cycle back to 10 *)
+  let evs := [EObj 10 3; EObj 11 3; ENull (QObj 3); EObj 10 3; ETmpl 50; EObj 12 4; ETmpl 50; EObj 10 3] in
+  store_all [] evs = ([TNewClass 3; TClassRef 1; TNull; TRef 2; TTmpl; TNewClass 4; TRef 4; TRef 2],
+                      [KCls 3; KObj 10 3; KObj 11 3; KTmpl 50; KCls 4; KObj 12 4]) /\
+  load_all [] (map rq_ev evs) (fst (store_all [] evs)) =
+    Ok ([Some 2; Some 3; None; Some 2; Some 4; Some 6; Some 4; Some 2], [LCls 3; LObj 3; LObj 3; LTmpl; LCls 4; LObj 4]) /\
+  load_all [] [QObj 4] [TNewClass 3] = Err E_NameDif /\ load_all [] [QObj 3] [TRef 1] = Err E_UppBnd /\
+  consistent evs.
+Proof.
+  cbv zeta. split; [vm_compute; reflexivity|]. split; [vm_compute; reflexivity|]. split; [reflexivity|]. split; [reflexivity|].
+  intros e1 e2 a H1 H2 Ha Hb. cbn [In] in H1, H2.
+  repeat (destruct H1 as [<-|H1]); try contradiction; cbn [ev_addr] in Ha; try discriminate; injection Ha as <-;
+  repeat (destruct H2 as [<-|H2]); try contradiction; cbn [ev_addr] in Hb; try discriminate; try reflexivity.
+Qed.
